@@ -14,6 +14,68 @@ let block_of s =
   match String.split_on_char '/' s with
   | [p; st; bd] -> { b_parents = nats p; b_stats = List.map stat_of (split_on ',' st); b_bounded = nats bd }
   | _ -> failwith "block"
+(* ---- CFG construction (M_FlowCFG)
+   cfg <fx> <ne> <args: l.e,l.e,...> <program: comma separated prefix tokens>
+     S skip | C call | R l e | A l e | D l e ign | Q a b | I n (l e)*n th hasel el
+     L isfor n (l e)*n m (l e)*m body hasel el | T body hasel el n handler*n | F body fexc fnorm
+     B break | K continue | X return | Z raise ;  handler = n (l e)*n hastg tl te body
+   answer: "<wf> <edges_at_end> <nblocks> <stat>;<stat>;..." in creation order,
+           stat = label:kind:entry:block:class   (class N/M/B, X = block detached)  or NONE *)
+let parse_prog (toks : string list) : stmt =
+  let r = ref toks in
+  let next () = match !r with t :: tl -> r := tl; t | [] -> failwith "eof" in
+  let nat () = nat_of_int (int_of_string (next ())) in
+  let bool () = (next () = "1") in
+  let rec refs n = if n = 0 then [] else let l = nat () in let e = nat () in (l, e) :: refs (n - 1) in
+  let reflist () = let n = int_of_string (next ()) in refs n in
+  let rec stmt () =
+    match next () with
+    | "S" -> Skip | "C" -> Call
+    | "R" -> let l = nat () in let e = nat () in Ref (l, e)
+    | "A" -> let l = nat () in let e = nat () in Asg (l, e)
+    | "D" -> let l = nat () in let e = nat () in let i = bool () in Del (l, e, i)
+    | "Q" -> let a = stmt () in let b = stmt () in Seq (a, b)
+    | "I" -> let c = reflist () in let th = stmt () in let h = bool () in let el = stmt () in If (c, th, h, el)
+    | "L" -> let f = bool () in let c = reflist () in let tg = reflist () in let b = stmt () in
+             let h = bool () in let el = stmt () in Loop (f, c, tg, b, h, el)
+    | "T" -> let b = stmt () in let h = bool () in let el = stmt () in
+             let n = int_of_string (next ()) in
+             let rec hs k = if k = 0 then HNil else
+               let pat = reflist () in let ht = bool () in let tl = nat () in let te = nat () in
+               let hb = stmt () in let rest = hs (k - 1) in HCons (pat, ht, tl, te, hb, rest) in
+             let h' = hs n in Try (b, h, el, h')
+    | "F" -> let b = stmt () in let fe = stmt () in let fn = stmt () in TryFin (b, fe, fn)
+    | "B" -> Break | "K" -> Continue | "X" -> Return | "Z" -> Raise
+    | t -> failwith ("tok " ^ t) in
+  let s = stmt () in
+  if !r <> [] then failwith "trailing"; s
+
+let cfg_cmd fx ne args prog =
+  let fx = (fx = "1") in
+  let ne = nat_of_int (int_of_string ne) in
+  let args = List.map (fun s -> match String.split_on_char '.' s with
+      | [l; e] -> (nat_of_int (int_of_string l), nat_of_int (int_of_string e)) | _ -> failwith "arg")
+      (split_on ',' args) in
+  let body = parse_prog (String.split_on_char ',' prog) in
+  let (st, ro) = run_cfg fx ne args body in
+  match ro with
+  | None -> "NONE"
+  | Some r ->
+      let cnt = Hashtbl.create 16 in
+      let one (b, s) =
+        let bi = int_of_nat b in
+        let k = try Hashtbl.find cnt bi with Not_found -> 0 in
+        Hashtbl.replace cnt bi (k + 1);
+        let (l, kind, e) = match s with LRef (l, e) -> (l, "R", e) | LAsg (l, e) -> (l, "A", e)
+                                      | LDel (l, e) -> (l, "D", e) in
+        let c = match cls_at ne st r b (nat_of_int k) with
+          | None -> "X" | Some DefNull -> "N" | Some MaybeNull -> "M" | Some Bound -> "B" in
+        Printf.sprintf "%d:%s:%d:%d:%s" (int_of_nat l) kind (int_of_nat e) bi c in
+      let items = List.map one (List.rev st.sts) in
+      String.concat " " [ string_of_bool (wf false body); string_of_bool (edges_at_end st);
+                          string_of_int (int_of_nat st.nb);
+                          if items = [] then "-" else String.concat ";" items ]
+
 let cls_char = function DefNull -> "N" | MaybeNull -> "M" | Bound -> "B"
 let dash s = if s = "" then "-" else s
 let handle = function
@@ -33,6 +95,7 @@ let handle = function
              String.concat "|" blocks;
              String.concat "|" (List.map (fun l -> dash (String.concat "," (List.map (fun k -> string_of_int (int_of_nat k)) l))) r.res_bits);
              String.concat "|" (List.map (fun l -> dash (String.concat "" (List.map cls_char l))) r.res_cls) ])
+  | ["cfg"; fx; ne; args; prog] -> cfg_cmd fx ne args prog
   | _ -> "!ERR badcmd"
 
 let () = main_loop handle
